@@ -16,7 +16,7 @@ pub fn def() -> CheckDef {
         meta: CheckMeta {
             id: "C03",
             level: "exploration",
-            rule: "generated single-threaded step sequences over {open reader (<= 4 open), close reader j (any order; by drop, or by a commit() call that must be refused), writer commit(ops), writer rollback(ops), each optionally with 1-2 readers begun while the writer is open, reopen (only with no reader open)} (plus sequences that start with one reader held across 30-70 small commits) with update/delete-heavy operations on a bounded key set at page size 1024, so pages are freed and reused at every commit, and bursts that rewrite ~40 page-sized values so that the free set is drained and any page released too early is overwritten at once. Each reader keeps the model clone taken when it began; after EVERY step every open reader is dumped in full and compared with its clone (a panic is a failure); commits are also checked with the independent parser. The file is pre-sized so that no commit grows it while a reader is open on the same thread (documented self-deadlock); cases that would come near the limit are discarded and counted. Non-trivial = a reader that stayed open across >= 2 commits of which at least one reused previously freed pages, while another reader of a different age was open. Distinct = hash of the case.",
+            rule: "generated single-threaded step sequences over {open reader (<= 4 open), close reader j (any order; by drop, or by a commit() call that must be refused), writer commit(ops), writer rollback(ops), each optionally with 1-2 readers begun while the writer is open, reopen (only with no reader open)} (plus sequences that start with one reader held across 30-70 small commits, and sequences with 17-24 readers open at once of which all but 1-4 are closed again before page-draining bursts) with update/delete-heavy operations on a bounded key set at page size 1024, so pages are freed and reused at every commit, and bursts that rewrite ~40 page-sized values so that the free set is drained and any page released too early is overwritten at once. Each reader keeps the model clone taken when it began; after EVERY step every open reader is dumped in full and compared with its clone (a panic is a failure); commits are also checked with the independent parser. The file is pre-sized so that no commit grows it while a reader is open on the same thread (documented self-deadlock); cases that would come near the limit are discarded and counted. Non-trivial = a reader that stayed open across >= 2 commits of which at least one reused previously freed pages, while another reader of a different age was open. Distinct = hash of the case.",
             assumptions: &[
                 "one thread holds several read transactions and at most one write transaction at a time; the writer never needs to grow the file (pre-sized), which is the documented precondition for doing this on one thread",
             ],
@@ -48,6 +48,9 @@ pub struct C03Case {
     pub num_pages: usize,
     pub setup: Vec<Op>,
     pub steps: Vec<Step>,
+    /// most readers open at once (0 = the default of 4)
+    #[serde(default)]
+    pub max_open: usize,
 }
 
 fn small_ops(max: usize) -> impl Strategy<Value = Vec<Op>> {
@@ -92,7 +95,7 @@ pub fn strategy(max_steps: usize, num_pages: usize) -> impl Strategy<Value = C03
             Op::PutRun { b: 40000, base: vec![], start: 0, step: 1, n: 12, klen: 100, vlen: 40 },
         ];
         s.append(&mut setup);
-        C03Case { num_pages, setup: s, steps }
+        C03Case { num_pages, setup: s, steps, max_open: 0 }
     })
 }
 
@@ -108,6 +111,41 @@ pub fn long_hold_strategy(max_tail: usize, num_pages: usize) -> impl Strategy<Va
         steps.push(Step::OpenReader);
         steps.append(&mut case.steps);
         case.steps = steps;
+        case
+    })
+}
+
+/// Many readers at once: 17-24 are opened (a few commits in between, several on the same
+/// snapshot), most of them closed again oldest first or in seeded order, then bursts that drain
+/// the free set; the survivors keep their snapshots.
+pub fn many_readers_strategy(num_pages: usize) -> impl Strategy<Value = C03Case> {
+    (17usize..25, any::<u64>(), prop::collection::vec(small_ops(5), 8), strategy(10, num_pages)).prop_map(|(r, seed, opss, mut case)| {
+        let mut rng = Rng(seed);
+        let mut steps = Vec::new();
+        let mut wi = 0;
+        for i in 0..r {
+            steps.push(Step::OpenReader);
+            if rng.chance(1, 3) && wi < opss.len() {
+                steps.push(Step::Write { commit: true, ops: opss[wi].clone(), inside: if i % 5 == 4 { 1 } else { 0 } });
+                wi += 1;
+            }
+        }
+        // close all but 1-4 survivors: oldest first (index 0) or at seeded positions
+        let survivors = 1 + rng.below(4) as usize;
+        let oldest_first = rng.chance(1, 2);
+        for _ in 0..r.saturating_sub(survivors) {
+            steps.push(Step::CloseReader(if oldest_first { 0 } else { rng.below(200) as u8 }));
+        }
+        for slot in 0..3u16 {
+            steps.push(Step::Write { commit: true, ops: vec![Op::PutRun { b: (seed >> 8) as u16, base: vec![b'z'], start: slot * 20, step: 1, n: 39, klen: 0, vlen: 1000 }], inside: 0 });
+            if wi < opss.len() {
+                steps.push(Step::Write { commit: true, ops: opss[wi].clone(), inside: 0 });
+                wi += 1;
+            }
+        }
+        steps.append(&mut case.steps);
+        case.steps = steps;
+        case.max_open = 26;
         case
     })
 }
@@ -179,7 +217,7 @@ pub fn run_case(case: &C03Case, path: &std::path::Path, st: &mut C03Stats) -> Re
                 step_i += 1;
                 match step {
                     Step::OpenReader => {
-                        if readers.len() < 4 {
+                        if readers.len() < (if case.max_open == 0 { 4 } else { case.max_open }) {
                             let tx = dbr.tx(false).map_err(|e| Failure::new("tx_err", e.to_string()).at(step_i, None))?;
                             st.readers_opened += 1;
                             let other_age = readers.iter().any(|r| r.born != st.commits);
@@ -224,7 +262,7 @@ pub fn run_case(case: &C03Case, path: &std::path::Path, st: &mut C03Stats) -> Re
                         // readers that begin while the writer is open: they see the state before it
                         let before = model.clone();
                         let born_before = st.commits;
-                        let room = 4usize.saturating_sub(readers.len());
+                        let room = (if case.max_open == 0 { 4usize } else { case.max_open }).saturating_sub(readers.len());
                         let mut begun: Vec<Tx> = Vec::new();
                         let mut hook = |_: &mut TxCtx, _: &MBucket| -> Result<(), Failure> {
                             for _ in 0..(*inside as usize).min(room) {
@@ -356,6 +394,17 @@ fn shard(ctx: &ShardCtx, known: &Known) -> ShardOut {
             discarded.set(discarded.get() + 1);
         }
         CaseVerdict { nontrivial: st.nontrivial && !st.discarded, classes: vec!["a reader held across 30-70 commits".into(), format!("max open readers {}", st.max_open)], failure: r.err() }
+    });
+    // many readers at once (17-24), most of them closed again, then page reuse
+    drive(ctx, &mut out, known, "c03", many_readers_strategy(pages), n / 12, "c03-many", None, |case| {
+        note_current(ctx, "c03", case);
+        let mut st = C03Stats::default();
+        let r = run_case(case, &path, &mut st);
+        dumps.set(dumps.get() + st.dumps);
+        if st.discarded {
+            discarded.set(discarded.get() + 1);
+        }
+        CaseVerdict { nontrivial: st.nontrivial && !st.discarded, classes: vec!["17-24 readers open at once".into(), format!("max open readers {}", st.max_open.min(17))], failure: r.err() }
     });
     clear_current(ctx);
     out.excluded = discarded.get();
